@@ -175,7 +175,14 @@ class RegionMask:
             return cutout
 
         # cutout is always a copy for partial overlap
-        dtype = float if ~np.isfinite(fill_value) else data.dtype
+        # use float if the fill value cannot be stored in the data dtype
+        # (non-finite, or non-integer for integer data)
+        if (not np.isfinite(fill_value)
+                or (data.dtype.kind in 'iub'
+                    and fill_value != np.trunc(fill_value))):
+            dtype = float
+        else:
+            dtype = data.dtype
         cutout = np.zeros(self.shape, dtype=dtype)
         cutout[:] = fill_value
         cutout[slices_small] = data[slices_large]
